@@ -14,6 +14,7 @@ import z3
 
 INT, REAL, BOOL = z3.IntSort(), z3.RealSort(), z3.BoolSort()
 ELEM = z3.DeclareSort("Elem")
+NONE_ELEM = z3.Const("None!as-element", ELEM)     # the Python value None used as a sequence item / pad value
 
 
 # ----------------------------------------------------------------------------
@@ -1001,6 +1002,8 @@ class Machine:
             if r is not NotImplemented:
                 return r
         if isinstance(op, (ast.Is, ast.IsNot)):
+            if (a is None and is_z3(b) and b.eq(NONE_ELEM)) or (b is None and is_z3(a) and a.eq(NONE_ELEM)):
+                return isinstance(op, ast.Is)
             if a is None or b is None or isinstance(a, (bool, str)) or isinstance(b, (bool, str)):
                 r = (a is b) if not (is_z3(a) or is_z3(b)) else False
             elif isinstance(a, Ref) and isinstance(b, Ref):
